@@ -24,12 +24,12 @@ RULE = ('Hypothesis draws a backend configuration (sample rate, 8..64 branches, 
 ASSUMPTIONS = ['fine bin k of coarse channel c (after fftshift) is at OBSFREQ + (c-(nchan-1)/2)*CHAN_BW + (k-L/2)*CHAN_BW/L',
                'PFB spectrum n is centred num_taps/2 windows after its first sample', 'tone in the DC-straddling channel and exact channel centres excluded (property)']
 REQUIRED_CLASSES = ['asc', 'desc', 'start_chan=0', 'start_chan>0', 'pols=1', 'pols=2', 'chirp', 'L!=n', 'quicklook',
-                    'quicklook_unpadded', 'quicklook_aligned', 'quicklook_padded']
+                    'quicklook_unpadded', 'quicklook_aligned', 'quicklook_padded', 'array']
 
 
 @st.composite
 def strategy_(draw, tier):
-    c = draw(volt.volt_config(max_blocks=4, max_m=16, arrays=False, branches=(8, 16, 32, 64), tones=(1, 1)))
+    c = draw(volt.volt_config(max_blocks=4, max_m=16, arrays=True, branches=(8, 16, 32, 64), tones=(1, 1), max_antennas=3))
     L = draw(st.sampled_from([16, 32, 64]))
     # enough spectra per channel: at least 2*L (4*L for chirps)
     need = 4 * L
@@ -115,12 +115,22 @@ def run_case(case, ctx):
         obs.cls('chirp')
     if L != n_int:
         obs.cls('L!=n')
-    src = AN.Antenna(sample_rate=c['sr'], fch1=c['fch1'], ascending=c['ascending'], num_pols=c['npol'],
-                     t_start=c['t_start'], seed=c['seed'])
-    for s in src.streams:
+    ant_idx = 0
+    if c['array']:
+        obs.cls('array')
+        src = AN.MultiAntennaArray(num_antennas=c['na'], sample_rate=c['sr'], fch1=c['fch1'], ascending=c['ascending'],
+                                   num_pols=c['npol'], delays=list(c['delays']), t_start=c['t_start'], seed=c['seed'])
+        ant_idx = t['ant'] % c['na']
+        all_streams = [s for a in src.antennas for s in a.streams]
+        tone_streams = src.antennas[ant_idx].streams
+    else:
+        src = AN.Antenna(sample_rate=c['sr'], fch1=c['fch1'], ascending=c['ascending'], num_pols=c['npol'],
+                         t_start=c['t_start'], seed=c['seed'])
+        all_streams = tone_streams = list(src.streams)
+    for s in all_streams:
         s.add_noise(v_mean=0.0, v_std=c['noise_std'])
     # f(t) = f_start + drift*t with t absolute: start so that the tone is at f_tone when the recording starts
-    src.streams[t['pol'] % c['npol']].add_constant_signal(f_start=f_tone - drift * c['t_start'], drift_rate=drift, level=t['level'])
+    tone_streams[t['pol'] % c['npol']].add_constant_signal(f_start=f_tone - drift * c['t_start'], drift_rate=drift, level=t['level'])
     # one sub-block per block and statistics taken once from the whole first block: with statistics refreshed per
     # tiny sub-block the requantiser's mean removal would distort a slow tone (the caveat the property itself makes)
     be = volt.build_backend(c, src, nsb=1, stats_common_prefix=False, period=-1)
@@ -152,12 +162,20 @@ def run_case(case, ctx):
     nchan_h = obsnchan // nants
     v = np.concatenate([ref_guppi.decode(b['data'], obsnchan, npol_h, nbits_h) for b in blocks], axis=1)   # (chan, time, pol)
     # ---- locate the tone with the file's own header -----------------------------------------------
-    power = np.zeros((nchan_h, nspec, L))
-    for ch in range(nchan_h):
+    power = np.zeros((obsnchan, nspec, L))
+    for ch in range(obsnchan):
         for p in range(npol_h):
             power[ch] += fine_spectra(v[ch, :, p], L)
     tot = power.sum(axis=1)
-    ch_f, k_f = np.unravel_index(int(np.argmax(tot)), tot.shape)
+    ch_all, k_f = np.unravel_index(int(np.argmax(tot)), tot.shape)
+    ant_f, ch_f = divmod(int(ch_all), nchan_h)          # antenna-major channel layout
+    if nants != c['na']:
+        obs.fail('header_nants', f'{nants} vs {c["na"]}')
+        return obs
+    if ant_f != ant_idx:
+        obs.fail('tone_in_wrong_antenna', f'found in antenna {ant_f}, injected into {ant_idx} of {c["na"]}')
+        return obs
+    power = power[ant_f * nchan_h:(ant_f + 1) * nchan_h]
     snr = float(tot.max() / max(np.median(tot), 1e-300))
     obs.nontrivial = snr >= 20 and (c['start_chan'] > 0 or not c['ascending'])
 
@@ -204,8 +222,8 @@ def run_case(case, ctx):
             if rp[k_] != want:
                 obs.fail(f'raw_params_{k_}', f'{rp[k_]} vs {want}')
     # ---- quick-look reducers -------------------------------------------------------------------------------
-    x0 = v[:nchan_h, :sz['spb'] * 1, 0].T          # block 0, (time, chans)
-    y0 = v[:nchan_h, :sz['spb'] * 1, 1].T if npol_h == 2 else None
+    x0 = v[:obsnchan, :sz['spb'] * 1, 0].T          # block 0, (time, chans)
+    y0 = v[:obsnchan, :sz['spb'] * 1, 1].T if npol_h == 2 else None
     if sz['spb'] >= L * n_int:
         ok, got = core.call(obs, 'get_pfb_waterfall', WF.get_pfb_waterfall, x0, y0, L, n_int)
         if ok:
@@ -215,7 +233,7 @@ def run_case(case, ctx):
                 obs.fail('pfb_waterfall_shape', f'{got.shape} vs {want.shape}')
             elif np.max(np.abs(got - want)) > 1e-9 * max(np.max(want), 1e-300):
                 obs.fail('pfb_waterfall_value', '')
-        if c['npol'] == 2 and c['nbits'] == 8:
+        if c['npol'] == 2 and c['nbits'] == 8 and not c['array']:
             obs.cls('quicklook')
             hdr_len = blocks[0]['hdr_len']
             obs.cls('quicklook_aligned' if hdr_len % 512 == 0 else ('quicklook_padded' if dio else 'quicklook_unpadded'))
